@@ -381,6 +381,9 @@ func phaseOf(c byte) gpbft.Phase {
 func (e *exec) mkMsg(inst uint64, sender gpbft.ActorID, round uint64, ph gpbft.Phase, sig byte) *gpbft.GMessage {
 	tc := vfix.TableCID(nil)
 	val := vfix.Chain(vfix.TipSet("g", 0, tc), string([]byte{'v', sig}), 1, tc) // a different EC head per signature
+	if sig == '_' {
+		val = &gpbft.ECChain{} // a vote for bottom (COMMIT when no PREPARE quorum came in time)
+	}
 	return &gpbft.GMessage{
 		Sender:    sender,
 		Vote:      gpbft.Payload{Instance: inst, Round: round, Phase: ph, Value: val, SupplementalData: gpbft.SupplementalData{PowerTable: tc}},
@@ -632,7 +635,7 @@ func main() {
 	focused := []string{"b710Pa", "b710Pb", "b810Pa", "r70P", "R", "K", "T2", "f", "F"}
 	// rounds: one instance that goes through rounds 0..3 of one step, with conflicting requests for old and new
 	// rounds and restarts in between (a long instance must stay protected in all its rounds)
-	rounds := []string{"b710Pa", "b710Pb", "b711Pa", "b712Pa", "b712Pb", "b713Pa", "R", "K"}
+	rounds := []string{"b710Pa", "b710Pb", "b711Pa", "b712Pa", "b712Pb", "b713Pa", "b710C_", "b710Ca", "R", "K"}
 	phases := []phase{{"focused", focused, 7, 45 * time.Second}, {"rounds", rounds, 5, 25 * time.Second}, {"full", alphabet(false), depth, 80 * time.Second}}
 	if thorough {
 		phases = []phase{{"focused", focused, 9, 8 * time.Minute}, {"rounds", rounds, 7, 4 * time.Minute}, {"full", alphabet(true), depth, 13 * time.Minute}}
@@ -752,7 +755,7 @@ func main() {
 		pureFilter(chk, w, thorough)
 	}
 	_ = os.RemoveAll(root)
-	chk.Set("rule", "three searches (focused: one slot, every restart/crash/certificate event, depth 7/9; rounds: rounds 0..3 of one slot with conflicting requests and restarts, depth 5/7; full alphabet) plus directed histories around a log file that grows past its rotation size with 100 KiB votes. BFS over histories of {broadcast(instance 7|8, sender 1|2, slot (0,PREPARE)|(0,COMMIT)|(1,PREPARE), signature a|b), rebroadcast(instance, slot), arrival of the finality certificates up to instance 3 (early network) | up to instance 6 — put into the node's certificate store, handled by the production finalize goroutine (purge, trim) and skip-forward, stepped to completion —, clean restart, crash-restart from the WAL image taken at the last publish, crash in the middle of an append (torn record of 1 byte / half / all-but-one byte left in the log)} on the production runner (newRunner, Start, BroadcastMessage, RequestRebroadcast, Stop; mock clock that never advances, so the participant itself stays idle) over a real WAL directory and a real gossipsub topic; states deduplicated on (WAL content, wire set, filter + rebroadcast store, image at last publish); the pure filter is explored exhaustively (all broadcast sequences over 2 instances x 2 slots x 2 signatures to depth 6/7) against a reference and the two wire invariants")
+	chk.Set("rule", "three searches (focused: one slot, every restart/crash/certificate event, depth 7/9; rounds: rounds 0..3 of one slot and a COMMIT for bottom vs for a value, with conflicting requests and restarts, depth 5/7; full alphabet) plus directed histories around a log file that grows past its rotation size with 100 KiB votes. BFS over histories of {broadcast(instance 7|8, sender 1|2, slot (0,PREPARE)|(0,COMMIT)|(1,PREPARE), signature a|b), rebroadcast(instance, slot), arrival of the finality certificates up to instance 3 (early network) | up to instance 6 — put into the node's certificate store, handled by the production finalize goroutine (purge, trim) and skip-forward, stepped to completion —, clean restart, crash-restart from the WAL image taken at the last publish, crash in the middle of an append (torn record of 1 byte / half / all-but-one byte left in the log)} on the production runner (newRunner, Start, BroadcastMessage, RequestRebroadcast, Stop; mock clock that never advances, so the participant itself stays idle) over a real WAL directory and a real gossipsub topic; states deduplicated on (WAL content, wire set, filter + rebroadcast store, image at last publish); the pure filter is explored exhaustively (all broadcast sequences over 2 instances x 2 slots x 2 signatures to depth 6/7) against a reference and the two wire invariants")
 	chk.Assume("no storage errors, no second node with the same identity on the runner path; inbound topic validator removed (outbound path under test); messages carry opaque signatures")
 	chk.Finish()
 }
